@@ -481,6 +481,12 @@ func (e *Exec) checkFrame(ct *Contract, fi *FuncInfo, fr *Frame, rets []*Ret) {
 						get(heapKey(t.Name, path[0].Name)).whole = true
 					}
 				}
+			case id != nil && id.Name == "smapof":
+				so, fld := e.syncMapOwner(x.Args[0], sc)
+				for _, k := range []string{"SM!" + fld + "!dom", "SM!" + fld + "!val"} {
+					a := get(k)
+					a.objs = append(a.objs, so.S)
+				}
 			}
 		}
 	}
